@@ -59,6 +59,9 @@ CHECKS["C20"] = ("bounded symbolic execution of s_centralities.py on a symbolic 
 CHECKS["C15"] = ("shadow execution of the real Hy-MMSBM numpy methods on z3 Real terms (object arrays), one QF_NRA query per obligation (z3, cross-checked with cvc5)",
     "poisson_params, expected_degree (per node / average), dimension_sequence, degree_sequence(expected), bf/qf helpers equal their definitions as sums over ALL possible hyperedges for all non-negative real u, w of the stated shapes (N<=5, K<=3, D<=N); fit keeps supplied parameters, divides only by provably non-zero terms, keeps w symmetric/diagonal (n_iter<=2) and parameters non-negative (one EM step). EM ascent is NOT claimed (not applicable: transcendental).",
     "exact real arithmetic (no rounding claim); dense-incidence stand-in for binary_incidence_matrix; a syntactic sign lemma for same-sign polynomials over positive variables (DESIGN 2.2, 3/C15)", "3 C15")
+CHECKS["C16"] = ("bounded symbolic execution of the real HyMMSBMSampler with every Generator draw (choice, random, accept/reject) a solver variable; arbitrary acceptance probability and arbitrary truncated-Poisson weights as over-approximating stand-ins",
+    "Validity (weighted, positive integer weights, no repeats, sizes, node set), conditioning (degrees / size counts never exceeded, exact when nothing coincided; matching_sequences flag honoured) on every outcome of the draws within 1-2 MCMC steps from initial hypergraphs and from 7 (degree, size) sequence pairs; seed discipline for all seeds (every Generator of sampler and embedded model built from the seed).",
+    "Generator contracts (verif/randstub.py); numeric acceptance probability and truncated-Poisson inverse CDF trusted/over-approximated; seeded numpy Generator assumed deterministic (DESIGN 3/C16)", "3 C16")
 NOT_YET = {}
 NA = {
  "C17": "HypergraphMT.fit / HySC.fit are in-place float numpy, LAPACK eig, sklearn KMeans and scipy.optimize on data-dependent masks with transcendental statements (EM ascent, log-likelihood agreement); nothing can be kept symbolic, so solver-based checking of the real code does not apply (DESIGN 3/C17).",
